@@ -278,3 +278,109 @@ End Access.
 (* all (row, column) pairs of a rows x cols grid in row-major order *)
 Definition grid (rows cols : N) : list (N * N) :=
   list_prod (map N.of_nat (seq 0 (N.to_nat rows))) (map N.of_nat (seq 0 (N.to_nat cols))).
+
+(* ---- Matrix::partition as compiled WITHOUT overflow checks (release profile) ----
+   The two subtractions `row_index - index` / `column_index - index` wrap instead of panicking.
+   What then stops a decreasing list:
+     - columns: `data.split_at_mut(columns_included)` panics when columns_included exceeds what is
+       left of the storage;
+     - rows: `Vec::<&mut [T]>::with_capacity(rows_included)` (one per column slice, at least one)
+       panics with a capacity overflow when rows_included * 16 bytes (a `&mut [T]` is a fat
+       pointer) exceeds isize::MAX.  [This check is the same in a debug build; the debug model
+       above leaves it out: it cannot fire for a matrix of fewer than 2^59 rows.  A request below
+       that limit is assumed to be served by the allocator — an allocation failure aborts the
+       process, it is not a panic.] *)
+Definition wrapping_sub (a b : N) : N := if b <=? a then a - b else a + (usize_max + 1) - b.
+Definition isize_max_bytes : N := 9223372036854775807.
+Definition part_rows_capacity_max : N := 576460752303423487.      (* isize::MAX / 16 *)
+
+Fixpoint split_row_release (bounds : list N) (index cursor remaining : N)
+  : option (list (N * N) * (N * N)) :=
+  match bounds with
+  | [] => Some ([], (cursor, remaining))
+  | column_index :: rest =>
+      let columns_included := wrapping_sub column_index index in
+      if remaining <? columns_included then None
+      else match split_row_release rest column_index (cursor + columns_included)
+                                   (remaining - columns_included) with
+           | Some (l, cr) => Some ((cursor, columns_included) :: l, cr)
+           | None => None
+           end
+  end.
+
+Fixpoint split_band_release (rows_included : nat) (bounds : list N) (cursor remaining : N)
+  : option (list (list (N * N)) * (N * N)) :=
+  match rows_included with
+  | O => Some ([], (cursor, remaining))
+  | S n => match split_row_release bounds 0 cursor remaining with
+           | None => None
+           | Some (row, (cursor', remaining')) =>
+               match split_band_release n bounds cursor' remaining' with
+               | Some (l, cr) => Some (row :: l, cr)
+               | None => None
+               end
+           end
+  end.
+
+Fixpoint split_bands_release (row_bounds : list N) (col_bounds : list N) (index cursor remaining : N)
+  : option (list (list (N * N))) :=
+  match row_bounds with
+  | [] => Some []
+  | row_index :: rest =>
+      let rows_included := wrapping_sub row_index index in
+      if part_rows_capacity_max <? rows_included then None
+      else match split_band_release (N.to_nat rows_included) col_bounds cursor remaining with
+           | None => None
+           | Some (band, (cursor', remaining')) =>
+               match split_bands_release rest col_bounds row_index cursor' remaining' with
+               | Some l => Some (band_parts (length col_bounds) band ++ l)
+               | None => None
+               end
+           end
+  end.
+
+Definition partition_release (rows cols : N) (row_partitions column_partitions : list N)
+  : outcome (list part) :=
+  if check_axis row_partitions rows then
+    if check_axis column_partitions cols then
+      match split_bands_release (row_partitions ++ [rows]) (column_partitions ++ [cols]) 0 0 (rows * cols) with
+      | Some l => Ok (map make_part l)
+      | None => Panic
+      end
+    else Panic
+  else Panic.
+
+(* ---- MatrixRef::data_layout: the hint a view gives about its memory order ----
+   Matrix and MatrixPart: RowMajor; MatrixRange, MatrixMap, Box<S>, Box<dyn MatrixRef / MatrixMut>:
+   the source's; MatrixReverse: Other; MatrixRefTensor: RowMajor / ColumnMajor when the tensor
+   source reports Linear([rows name, columns name]) / Linear([columns name, rows name]), else
+   Other; TensorRefMatrix reports Linear([n0, n1]) over a RowMajor source, Linear([n1, n0]) over
+   a ColumnMajor one, else Other — so the round trip MatrixRefTensor(TensorRefMatrix(src)) keeps
+   src's layout (the names differ, with_names checked it). *)
+(* LPanics: the call panics (only a TensorRename source whose layout names are not in its shape) *)
+Inductive mlayout : Type := LRowMajor | LColumnMajor | LOther | LPanics.
+
+Definition layout_of_tensor (c : Views.cview) : mlayout :=
+  match Views.c_layout c, Views.c_shape c with
+  | Ok (Views.Linear [a; b]), [(rn, _); (cn, _)] =>
+      if Nat.eqb a rn && Nat.eqb b cn then LRowMajor
+      else if Nat.eqb a cn && Nat.eqb b rn then LColumnMajor
+      else LOther
+  | Ok _, _ => LOther
+  | _, _ => LPanics
+  end.
+
+Fixpoint data_layout (v : mview) : mlayout :=
+  match v with
+  | VMatrix _ _ => LRowMajor
+  | VPart _ => LRowMajor
+  | VRange _ _ src => data_layout src
+  | VReverse _ _ _ => LOther
+  | VMap src => data_layout src
+  | VViaTensor _ _ src => data_layout src
+  | VOverTensor c => layout_of_tensor c
+  end.
+
+(* `impl MatrixRef for &S` and `for &mut S` (views/traits.rs) do NOT ask S: they answer RowMajor
+   whatever the source is (the tensor counterparts forward to the source) *)
+Definition data_layout_through_reference (v : mview) : mlayout := LRowMajor.
